@@ -553,3 +553,33 @@ def match_known(known, tags):
         if k["tag"] and k["tag"] in tags:
             return k
     return None
+
+
+def bounded_check(ev, prop, script, name, target, timeout=1200):
+    """run a BOUNDED stand-in script (bounded/<script>, under /venv/bin/python on the tree under check): it writes
+    {bound, cases, violations:[case..]} and supports `--replay <violation.json>`. Reported under coverage.bounded, never counted as proved."""
+    outdir = os.path.join(VERIF, "out", prop)
+    os.makedirs(outdir, exist_ok=True)
+    stem = os.path.splitext(script)[0]
+    res_path = os.path.join(outdir, f"bounded_{stem}.json")
+    if os.path.exists(res_path):
+        os.remove(res_path)
+    env = dict(os.environ, PYTHONPATH=repo_root() + os.pathsep + VERIF)
+    p = subprocess.run(["/venv/bin/python", os.path.join(VERIF, "bounded", script), res_path], capture_output=True, text=True, env=env, timeout=timeout)
+    cov = ev["coverage"]
+    if p.returncode not in (0, 1) or not os.path.exists(res_path):
+        cov["undecided_now"].append({"function": name + " (bounded)", "kind": "checker-error", "detail": (p.stdout + p.stderr)[-400:]})
+        return 3
+    r = json.load(open(res_path))
+    cov.setdefault("bounded", []).append({"name": name, "bound": r["bound"], "cases": r["cases"], "violations": len(r["violations"]), "label": "bounded, not proved"})
+    if not r["violations"]:
+        return 0
+    path = os.path.join(outdir, f"bounded_violation_{stem}.json")
+    rec = {"property": prop, "obligation": f"{prop}/{stem}/bounded", "target": target, "case": r["violations"][0], "verifier": "bounded scenarios on the real code (stand-in, not a proof)"}
+    json.dump(rec, open(path, "w"), indent=1, default=str)
+    rp = subprocess.run(["/venv/bin/python", os.path.join(VERIF, "bounded", script), "--replay", path], capture_output=True, text=True, env=env, timeout=timeout)
+    rec["replay"] = {"reproduced": rp.returncode == 1, "detail": (rp.stdout.strip().splitlines() or [""])[-1][:600]}
+    json.dump(rec, open(path, "w"), indent=1, default=str)
+    print(f"VIOLATION property={prop} replay={path}" + ("" if rec["replay"]["reproduced"] else " no-failing-input-found"))
+    ev["violations"] += 1
+    return 1
